@@ -127,7 +127,10 @@ fn run_sort(order: &str, key: Key) {
             vassert!(monotone3(key, [v[0].1, v[1].1, v[2].1]), "C15: the sort key is not monotone down the table");
         }
     }
-    vcover!(a == k2, "the row with the largest address can come first");
+    match key {
+        Key::None => vcover!(a == k0, "address order kept"),
+        _ => vcover!(a == k2, "the row with the largest address can come first"),
+    }
 }
 
 macro_rules! sort_h {
@@ -142,7 +145,7 @@ macro_rules! sort_h {
     };
 }
 
-// @harness name=c15_sort_s props=C15 tier=quick cap=600
+// @harness name=c15_sort_s props=C15,C01 tier=quick cap=600
 // -o s: squawk ascending; 3 rows, all keys symbolic incl. blanks and ties
 sort_h!(c15_sort_s, "s", Key::Squawk);
 // @harness name=c15_sort_a props=C15 tier=quick cap=600
@@ -157,7 +160,7 @@ sort_h!(c15_sort_v, "v", Key::Vrate);
 // @harness name=c15_sort_upper_v props=C15 tier=thorough cap=600
 // -o V: vertical rate, other direction
 sort_h!(c15_sort_upper_v, "V", Key::Vrate);
-// @harness name=c15_sort_n props=C15 tier=quick cap=600
+// @harness name=c15_sort_n props=C15,C01 tier=quick cap=600
 // -o N: latitude
 sort_h!(c15_sort_n, "N", Key::Lat);
 // @harness name=c15_sort_upper_s props=C15 tier=thorough cap=600
